@@ -304,6 +304,7 @@ func (g *gen) sanitize(o client.Object) {
 			for _, p := range r.HTTP.Paths {
 				if !taken[r.Host+"#"+p.Path] {
 					keep = append(keep, p)
+					taken[r.Host+"#"+p.Path] = true // also inside one ingress
 				}
 			}
 			r.HTTP.Paths = keep
